@@ -144,7 +144,7 @@ def enumerate_cases(tier, seed):
             yield {"mode": "single", "full": False, "site": mailsite,
                    "req": {"target": target, "mut": "none", "form": form, "raw": None, "rawtls": False, "search": None, "bare": False}}
     for target in (2, 1):
-        for mut in ("qmark", "bar", "qquote", "barquote", "qbslash", "qshell"):
+        for mut in ("qmark", "bar", "qquote", "barquote", "qbslash", "qshell", "typeprefix", "typeprefix2", "typeprefixdeep"):
             for form in FORMS:
                 yield {"mode": "single", "full": True, "site": site,
                        "req": {"target": target, "mut": mut, "form": form, "raw": None, "rawtls": False, "search": None, "bare": False}}
